@@ -306,11 +306,16 @@ Proof.
   now apply message_of_tree_tree.
 Qed.
 
+Lemma real_message_wf m : real_message m = true -> wf_message m = true.
+Proof. unfold real_message. intro H. apply andb_true_iff in H as [H _]. apply andb_true_iff in H as [H _]. exact H. Qed.
+
 Theorem message_unmarshal_roundtrip m0 m :
-  wf_message m = true -> message_unmarshal m0 (message_encode m) = (m, false).
+  real_message m = true -> message_unmarshal m0 (message_encode m) = (m, false).
 Proof.
-  intro Hwf. unfold message_unmarshal.
-  rewrite <- (app_nil_r (message_encode m)), message_roundtrip by assumption. reflexivity.
+  intro Hr. pose proof (real_message_wf m Hr) as Hwf. unfold message_unmarshal.
+  rewrite <- (app_nil_r (message_encode m)), message_roundtrip by assumption.
+  unfold real_message in Hr. apply andb_true_iff in Hr as [Hr H2]. apply andb_true_iff in Hr as [_ H1].
+  now rewrite H1, H2.
 Qed.
 
 Theorem message_encode_inj m1 m2 :
@@ -322,24 +327,39 @@ Proof.
   rewrite E in D1. rewrite D1 in D2. now injection D2.
 Qed.
 
-(* since fix 3cad471: a decoding failure is reported, and the receiver is left as it was *)
+(* a decoding failure is reported (fix 3cad471), and the receiver is left as it was *)
 Theorem message_unmarshal_reports_errors m0 bs :
-  message_decode m0 bs = None -> message_unmarshal m0 bs = (m0, true).
+  message_decode empty_message bs = None -> message_unmarshal m0 bs = (m0, true).
 Proof. unfold message_unmarshal. now intros ->. Qed.
 
-(* no error <-> the bytes decode, and then the receiver is exactly the decoded message *)
+(* no error <-> the bytes decode (into a fresh message) to something that names its sender and its protocol;
+   then the receiver is exactly the decoded message *)
 Theorem message_unmarshal_ok_iff m0 bs m :
-  message_unmarshal m0 bs = (m, false) <-> message_decode m0 bs = Some m.
+  message_unmarshal m0 bs = (m, false) <->
+  message_decode empty_message bs = Some m /\ nonempty (m_from m) && nonempty (m_protocol m) = true.
 Proof.
-  unfold message_unmarshal. destruct (message_decode m0 bs) as [m'|]; split; intro H.
-  - now injection H as ->.
-  - now injection H as ->.
+  unfold message_unmarshal. destruct (message_decode empty_message bs) as [m'|]; split.
+  - destruct (nonempty (m_from m') && nonempty (m_protocol m')) eqn:E; intro H; [|discriminate].
+    injection H as ->. now split.
+  - intros [H E]. injection H as ->. now rewrite E.
   - discriminate.
-  - discriminate.
+  - intros [H _]. discriminate.
 Qed.
 
-(* a Message whose sender id is not valid UTF-8 is still marshalled without complaint and cannot be restored;
-   since the fix the failure is at least reported *)
+(* never a silently empty object: what is accepted names a sender and a protocol *)
+Theorem message_unmarshal_never_empty m0 bs m :
+  message_unmarshal m0 bs = (m, false) -> m_from m <> [] /\ m_protocol m <> [].
+Proof.
+  intro H. apply message_unmarshal_ok_iff in H as [_ E]. apply andb_true_iff in E as [E1 E2].
+  split; intro Z; [rewrite Z in E1 | rewrite Z in E2]; discriminate.
+Qed.
+
+(* the one-byte inputs null / empty map are refused now *)
+Theorem message_null_refused m0 : message_unmarshal m0 [246] = (m0, true) /\ message_unmarshal m0 [160] = (m0, true).
+Proof. split; reflexivity. Qed.
+
+(* a Message whose sender id is not valid UTF-8 is still marshalled without complaint and cannot be restored (the
+   failure is reported).  No session produces such a message any more: round.NewSession refuses the id. *)
 Theorem message_invalid_utf8_not_restorable :
   exists m, message_decode empty_message (message_encode m) = None /\
             message_unmarshal empty_message (message_encode m) = (empty_message, true).
@@ -347,9 +367,8 @@ Proof.
   exists (mkMessage None [97; 255] [] [112] 1 None false None). split; vm_compute; reflexivity.
 Qed.
 
-(* still true after the fix: CBOR null (0xf6) is "decoded" into the struct without any effect and without an error,
-   so a fresh Message stays empty and UnmarshalBinary returns nil *)
-Theorem message_null_silently_empty : message_unmarshal empty_message [246] = (empty_message, false).
+(* ---- the code before the patch that refuses empty messages ---- *)
+Theorem message_unmarshal_v1_null_silently_empty : message_unmarshal_v1 empty_message [246] = (empty_message, false).
 Proof. reflexivity. Qed.
 
 (* ---- the code before the fix (regression examples) ---- *)
@@ -1061,6 +1080,21 @@ Ltac peel H :=
       is_var l; destruct l as [|[[] ?] ?]; try discriminate H; cbv beta iota in H
   end.
 
+(* destruct the option-valued scrutinee at the head of H, keeping its equation; the None branch is an error *)
+Ltac dH H :=
+  match type of H with
+  | match ?e with Some _ => _ | None => _ end = _ =>
+      let E := fresh "E" in destruct e eqn:E; [|discriminate H]
+  end.
+Ltac dIf H yes :=
+  match type of H with
+  | (if ?c then _ else _) = _ =>
+      match yes with
+      | true => destruct c; [|discriminate H]
+      | false => destruct c; [discriminate H|]
+      end
+  end.
+
 Lemma secp_q_pos : 0 < secp_q. Proof. reflexivity. Qed.
 
 Lemma fld_scalar_range v x : out_opt (fld_scalar v) = Some x -> 0 <= x < secp_q.
@@ -1250,14 +1284,323 @@ Definition frost_bad_tree : cbor :=
   CMap [ (CText k_id, CText [97%N]); (CText k_threshold, CNeg 0); (CText k_privateshare, CBytes (zeros 32));
          (CText k_publickey, CBytes (point_encode secp_G)); (CText k_chainkey, CNull); (CText k_vshares, CNull) ].
 
-Theorem frost_unmarshal_sound_refuted :
-  exists bs c, frost_unmarshal bs = Ok c /\ ~ valid_frost c /\
+(* before the validating UnmarshalCBOR: nothing was checked *)
+Theorem frost_unmarshal_sound_v0_refuted :
+  exists bs c, frost_unmarshal_v0 bs = Ok c /\ ~ valid_frost c /\
                f_share c = 0 /\ f_threshold c = -1 /\ f_shares c = [] /\ f_chain c = None.
 Proof.
   exists (encode frost_bad_tree). eexists. split; [vm_compute; reflexivity|].
   split; [|repeat split].
   intros (H & _). cbn in H. lia.
 Qed.
+
+(* the same bytes are refused now *)
+Theorem frost_unmarshal_refuses_v0_witness : frost_unmarshal (encode frost_bad_tree) = Err 2.
+Proof. vm_compute. reflexivity. Qed.
+
+(* ---- the validating restore functions: whatever they accept is valid; they never panic ---- *)
+
+Lemma recovered_ok' {A} (o : outcome A) a : recovered o = Ok a -> o = Ok a.
+Proof. destruct o; cbn; congruence. Qed.
+
+Lemma validated_ok {A} (valid : A -> bool) o a :
+  validated valid o = Ok a -> o = Ok a /\ valid a = true.
+Proof.
+  unfold validated. destruct (recovered o) as [a'| |] eqn:E; try discriminate.
+  destruct (valid a') eqn:V; [|discriminate]. intro H. injection H as <-.
+  split; [now apply recovered_ok' | assumption].
+Qed.
+
+Lemma validated_total {A} (valid : A -> bool) o : validated valid o <> Panic.
+Proof.
+  unfold validated. destruct o as [a| |]; cbn; try discriminate. destruct (valid a); discriminate.
+Qed.
+
+Lemma has_share_in id l : has_share id l = true -> In id (map fst l).
+Proof.
+  unfold has_share. intro H. apply existsb_exists in H as (e & He & E). apply bytes_eqb_eq in E. subst.
+  now apply in_map.
+Qed.
+
+Lemma has_share_not_in id l : has_share id l = false -> ~ In id (map fst l).
+Proof.
+  unfold has_share. intros H Hin. apply in_map_iff in Hin as (e & <- & He).
+  assert (E : existsb (fun e0 => bytes_eqb (fst e0) (fst e)) l = true).
+  { apply existsb_exists. exists e. split; [assumption|]. now apply bytes_eqb_eq. }
+  congruence.
+Qed.
+
+Lemma dedup_last_incl l e : In e (dedup_last l) -> In e l.
+Proof.
+  induction l as [|x l IH]; cbn [dedup_last]; [auto|].
+  destruct (has_share (fst x) l); intro H; [right; auto|].
+  destruct H as [->|H]; [now left | right; auto].
+Qed.
+
+Lemma dedup_last_nodup l : NoDup (map fst (dedup_last l)).
+Proof.
+  induction l as [|x l IH]; cbn [dedup_last]; [constructor|].
+  destruct (has_share (fst x) l) eqn:E; [assumption|].
+  cbn [map]. constructor; [|assumption].
+  intro Hin. apply in_map_iff in Hin as (e & Ee & He). apply dedup_last_incl in He.
+  apply has_share_not_in in E. apply E. rewrite <- Ee. now apply in_map.
+Qed.
+
+Lemma dedup_last_forall (P : bytes * point -> Prop) l : Forall P l -> Forall P (dedup_last l).
+Proof.
+  intro H. apply Forall_forall. intros e He. apply dedup_last_incl in He.
+  rewrite Forall_forall in H. now apply H.
+Qed.
+
+Definition wf_shares (l : list (bytes * point)) : Prop :=
+  NoDup (map fst l) /\ Forall (fun e => wf_point (snd e)) l.
+
+Lemma shares_of_pairs_wf l : forall sh,
+  shares_of_pairs l = Some sh -> Forall (fun e => wf_point (snd e)) sh.
+Proof.
+  induction l as [|[k v] l IH]; intros sh H; cbn [shares_of_pairs] in H.
+  - injection H as <-. constructor.
+  - destruct k; try discriminate. destruct v; try discriminate.
+    + destruct (utf8_valid b); [|discriminate].
+      destruct (point_decode b0) as [P|] eqn:EP; [|discriminate].
+      destruct (shares_of_pairs l) as [r|]; [|discriminate]. injection H as <-.
+      constructor; [|now apply IH]. cbn. right. now apply point_decode_valid in EP as [_ EP].
+    + destruct (utf8_valid b); [|discriminate].
+      destruct (shares_of_pairs l) as [r|]; [|discriminate]. injection H as <-.
+      constructor; [|now apply IH]. cbn. now left.
+Qed.
+
+Lemma dedup_shares_wf l sh : option_map dedup_last (shares_of_pairs l) = Some sh -> wf_shares sh.
+Proof.
+  destruct (shares_of_pairs l) as [r|] eqn:E; [|discriminate]. cbn. intro H. injection H as <-.
+  split; [apply dedup_last_nodup|]. apply dedup_last_forall. now apply shares_of_pairs_wf with (l := l).
+Qed.
+
+Lemma wf_shares_nil : wf_shares [].
+Proof. split; constructor. Qed.
+
+Lemma pointmap_of_bytes_wf b sh : pointmap_of_bytes b = Some sh -> wf_shares sh.
+Proof.
+  unfold pointmap_of_bytes. destruct (decode b) as [[t r]|]; [|discriminate].
+  destruct t; try discriminate.
+  - now apply dedup_shares_wf.
+  - intro H. injection H as <-. apply wf_shares_nil.
+Qed.
+
+Lemma shares_ok_valid l :
+  Forall (fun e => wf_point (snd e)) l -> shares_ok l = true -> Forall (fun e => valid_point (snd e)) l.
+Proof.
+  unfold shares_ok. intros Hw Hok. rewrite forallb_forall in Hok. rewrite Forall_forall in *.
+  intros e He. apply not_identity_valid; [now apply Hw|]. apply negb_true_iff. now apply Hok.
+Qed.
+
+Lemma out_scalar_range v x : out_opt (fld_scalar v) = Some x -> 0 <= x < secp_q.
+Proof. apply fld_scalar_range. Qed.
+
+(* ---- FROST ---- *)
+Lemma frost_of_tree_wf t c :
+  frost_of_tree t = Ok c -> 0 <= f_share c < secp_q /\ wf_point (f_public c) /\ wf_shares (f_shares c).
+Proof.
+  intro H. unfold frost_of_tree in H. destruct t; try discriminate H.
+  - do 6 peel H. destruct l; try discriminate H. cbv beta iota in H.
+    match type of H with (if ?c then _ else _) = _ => destruct c; [|discriminate H] end.
+    match type of H with (if ?c then _ else _) = _ => destruct c; [discriminate H|] end.
+    destruct (fld_text _ _); try discriminate H.
+    destruct (fld_int _ _); try discriminate H.
+    destruct (out_opt (fld_scalar c2)) eqn:E1; try discriminate H.
+    destruct (out_opt (fld_point c3)) eqn:E2; try discriminate H.
+    destruct (fld_bytes _); try discriminate H.
+    match type of H with match ?o with Some _ => _ | None => _ end = _ => destruct o as [sh|] eqn:Es; [|discriminate H] end.
+    injection H as <-. cbn.
+    split; [eapply fld_scalar_range; eauto|]. split; [eapply fld_point_wf; eauto|].
+    destruct c5; try discriminate Es.
+    + now apply pointmap_of_bytes_wf in Es.
+    + injection Es as <-. apply wf_shares_nil.
+  - injection H as <-. cbn. pose proof secp_q_pos. split; [lia|]. split; [now left | apply wf_shares_nil].
+Qed.
+
+Theorem frost_unmarshal_sound bs c : frost_unmarshal bs = Ok c -> valid_frost c.
+Proof.
+  unfold frost_unmarshal. destruct (decode bs) as [[t r]|]; [|discriminate].
+  intro H. apply validated_ok in H as [Ht Hv].
+  apply frost_of_tree_wf in Ht as (Hx & Hpk & Hnd & Hsh).
+  unfold frost_validate in Hv.
+  apply andb_true_iff in Hv as [Hv V6]. apply andb_true_iff in Hv as [Hv V5].
+  apply andb_true_iff in Hv as [Hv V4]. apply andb_true_iff in Hv as [Hv V3].
+  apply andb_true_iff in Hv as [V1 V2].
+  apply negb_true_iff, Z.eqb_neq in V1. apply negb_true_iff in V2. apply Z.leb_le in V3, V4.
+  unfold valid_frost. split; [lia|]. split; [now apply not_identity_valid|]. split; [lia|].
+  split; [assumption|]. split; [now apply has_share_in|]. now apply shares_ok_valid.
+Qed.
+
+Theorem frost_unmarshal_total bs : frost_unmarshal bs <> Panic.
+Proof. unfold frost_unmarshal. destruct (decode bs) as [[t r]|]; [apply validated_total | discriminate]. Qed.
+
+(* ---- FROST, Taproot ---- *)
+Lemma taproot_of_tree_wf t c :
+  taproot_of_tree t = Ok c ->
+  (forall x, t_share c = Some x -> 0 <= x < secp_q) /\ wf_shares (t_shares c).
+Proof.
+  intro H. unfold taproot_of_tree in H. destruct t; try discriminate H.
+  - do 6 peel H. destruct l; try discriminate H. cbv beta iota in H.
+    match type of H with (if ?c then _ else _) = _ => destruct c; [|discriminate H] end.
+    destruct (fld_text _ _); try discriminate H.
+    destruct (fld_int _ _); try discriminate H.
+    destruct (fld_scalar_ptr c2) eqn:E1; try discriminate H.
+    destruct (fld_bytes _); try discriminate H. destruct (fld_bytes _); try discriminate H.
+    match type of H with match ?o with Some _ => _ | None => _ end = _ => destruct o as [sh|] eqn:Es; [|discriminate H] end.
+    injection H as <-. cbn. split.
+    + intros x ->. destruct c2; try discriminate E1. cbn [fld_scalar_ptr] in E1.
+      revert E1. destruct (scalar_decode _) eqn:Ed; intro E1; [|discriminate E1]. injection E1 as <-.
+      apply scalar_decode_iff in Ed as (_ & _ & -> & Hq). lia.
+    + destruct c5; try discriminate Es.
+      * now apply dedup_shares_wf in Es.
+      * injection Es as <-. apply wf_shares_nil.
+  - injection H as <-. cbn. split; [discriminate | apply wf_shares_nil].
+Qed.
+
+Theorem taproot_unmarshal_sound bs c : taproot_unmarshal bs = Ok c -> valid_taproot c.
+Proof.
+  unfold taproot_unmarshal. destruct (decode bs) as [[t r]|]; [|discriminate].
+  intro H. apply validated_ok in H as [Ht Hv].
+  apply taproot_of_tree_wf in Ht as (Hx & Hnd & Hsh).
+  unfold taproot_validate in Hv.
+  destruct (t_share c) as [x|] eqn:Ex; [|discriminate]. destruct (t_public c) as [pk|] eqn:Epk; [|discriminate].
+  apply andb_true_iff in Hv as [Hv V7]. apply andb_true_iff in Hv as [Hv V6].
+  apply andb_true_iff in Hv as [Hv V5]. apply andb_true_iff in Hv as [Hv V4].
+  apply andb_true_iff in Hv as [Hv V3]. apply andb_true_iff in Hv as [V1 V2].
+  apply negb_true_iff, Z.eqb_neq in V1. apply Nat.eqb_eq in V2. apply Z.leb_le in V4, V5.
+  specialize (Hx x eq_refl).
+  unfold valid_taproot. split; [exists x; split; [exact Ex | lia]|].
+  split; [exists pk; auto|]. split; [lia|].
+  split; [assumption|]. split; [now apply has_share_in|]. now apply shares_ok_valid.
+Qed.
+
+Theorem taproot_unmarshal_total bs : taproot_unmarshal bs <> Panic.
+Proof. unfold taproot_unmarshal. destruct (decode bs) as [[t r]|]; [apply validated_total | discriminate]. Qed.
+
+(* ---- Doerner ---- *)
+Lemma doerner_of_tree_wf n t cfg :
+  doerner_of_tree n t = Ok cfg ->
+  0 <= d_share cfg < secp_q /\ wf_point (d_public cfg) /\ (forall st, d_setup cfg = Some st -> length st = n).
+Proof.
+  intro H. unfold doerner_of_tree in H. destruct t; try discriminate H.
+  - do 4 peel H. destruct l; try discriminate H. cbv beta iota in H.
+    dIf H true. dIf H false. repeat dH H.
+    injection H as <-. cbn.
+    split; [eapply fld_scalar_range; eassumption|]. split; [eapply fld_point_wf; eassumption|].
+    intros st' ->.
+    match goal with Es : match ?v with _ => _ end = Some (Some st') |- _ =>
+      destruct v; try discriminate Es;
+      match type of Es with (if Nat.eqb (length ?bb) n then _ else _) = _ =>
+        destruct (Nat.eqb_spec (length bb) n); [|discriminate Es] end;
+      now injection Es as <- end.
+  - injection H as <-. cbn. pose proof secp_q_pos. split; [lia|]. split; [now left | discriminate].
+Qed.
+
+Theorem doerner_unmarshal_sound n bs c : doerner_unmarshal n bs = Ok c -> valid_doerner n c.
+Proof.
+  unfold doerner_unmarshal. destruct (decode bs) as [[t r]|]; [|discriminate].
+  intro H. apply validated_ok in H as [Ht Hv].
+  apply doerner_of_tree_wf in Ht as (Hx & Hpk & Hst).
+  unfold doerner_validate in Hv. destruct (d_setup c) as [st|] eqn:Es; [|discriminate].
+  apply andb_true_iff in Hv as [Hv V3]. apply andb_true_iff in Hv as [V1 V2].
+  apply negb_true_iff, Z.eqb_neq in V1. apply negb_true_iff in V2.
+  unfold valid_doerner. split; [exists st; auto|]. split; [lia|]. split; [now apply not_identity_valid|].
+  unfold chain_ok in V3. destruct (d_chain c) as [b|]; [|discriminate]. apply Nat.eqb_eq in V3.
+  exists b. auto.
+Qed.
+
+Theorem doerner_unmarshal_total n bs : doerner_unmarshal n bs <> Panic.
+Proof. unfold doerner_unmarshal. destruct (decode bs) as [[t r]|]; [apply validated_total | discriminate]. Qed.
+
+(* ---- Signature ---- *)
+Lemma signature_of_tree_wf t sg :
+  signature_of_tree t = Ok sg -> wf_point (fst sg) /\ 0 <= snd sg < secp_q.
+Proof.
+  intro H. unfold signature_of_tree in H. destruct t; try discriminate H.
+  - do 2 peel H. destruct l; try discriminate H. cbv beta iota in H.
+    dIf H true. dIf H false. repeat dH H.
+    injection H as <-. cbn. split; [eapply fld_point_wf; eassumption | eapply fld_scalar_range; eassumption].
+  - injection H as <-. cbn. pose proof secp_q_pos. split; [now left | lia].
+Qed.
+
+Theorem signature_unmarshal_sound bs sg : signature_unmarshal bs = Ok sg -> valid_signature sg.
+Proof.
+  unfold signature_unmarshal. destruct (decode bs) as [[t r]|]; [|discriminate].
+  intro H. apply validated_ok in H as [Ht Hv]. apply signature_of_tree_wf in Ht as (HR & Hs).
+  unfold signature_validate in Hv. apply andb_true_iff in Hv as [V1 V2].
+  apply negb_true_iff in V1. apply negb_true_iff, Z.eqb_neq in V2.
+  split; [now apply not_identity_valid | lia].
+Qed.
+
+Theorem signature_unmarshal_total bs : signature_unmarshal bs <> Panic.
+Proof. unfold signature_unmarshal. destruct (decode bs) as [[t r]|]; [apply validated_total | discriminate]. Qed.
+
+(* ---- PreSignature ---- *)
+Definition wf_opt_shares (o : option (list (bytes * point))) : Prop :=
+  match o with Some l => wf_shares l | None => True end.
+
+Lemma fld_pointmap_wf v o : fld_pointmap v = Some o -> wf_opt_shares o.
+Proof.
+  destruct v; cbn [fld_pointmap]; try discriminate.
+  - destruct (pointmap_of_bytes b) as [sh|] eqn:E; [|discriminate]. cbn. intro H. injection H as <-.
+    cbn. now apply pointmap_of_bytes_wf in E.
+  - intro H. injection H as <-. exact I.
+Qed.
+
+Lemma presig_of_tree_wf t p :
+  presig_of_tree t = Ok p ->
+  wf_point (ps_R p) /\ wf_opt_shares (ps_RBar p) /\ wf_opt_shares (ps_S p) /\
+  0 <= ps_k p < secp_q /\ 0 <= ps_chi p < secp_q.
+Proof.
+  intro H. unfold presig_of_tree in H. destruct t; try discriminate H.
+  - do 6 peel H. destruct l; try discriminate H. cbv beta iota in H.
+    dIf H true. dIf H false. repeat dH H.
+    injection H as <-. cbn.
+    split; [eapply fld_point_wf; eassumption|]. split; [eapply fld_pointmap_wf; eassumption|].
+    split; [eapply fld_pointmap_wf; eassumption|]. split; eapply fld_scalar_range; eassumption.
+  - injection H as <-. cbn. pose proof secp_q_pos.
+    split; [now left|]. split; [apply wf_shares_nil|]. split; [apply wf_shares_nil|]. lia.
+Qed.
+
+Lemma find_share_wf id l P :
+  Forall (fun e => wf_point (snd e)) l -> find_share id l = Some P -> wf_point P.
+Proof.
+  unfold find_share. intros Hw H. destruct (find _ l) as [e|] eqn:E; [|discriminate]. injection H as <-.
+  apply find_some in E as [He _]. rewrite Forall_forall in Hw. now apply Hw.
+Qed.
+
+Theorem presig_unmarshal_sound bs p : presig_unmarshal bs = Ok p -> valid_presig p.
+Proof.
+  unfold presig_unmarshal. destruct (decode bs) as [[t r]|]; [|discriminate].
+  intro H. apply validated_ok in H as [Ht Hv].
+  apply presig_of_tree_wf in Ht as (HR & Hrb & Hsm & Hk & Hchi).
+  unfold presig_validate in Hv.
+  destruct (ps_RBar p) as [rb|] eqn:Erb; [|discriminate]. destruct (ps_S p) as [sm|] eqn:Esm; [|discriminate].
+  cbn in Hrb, Hsm. destruct Hrb as [_ Hrb]. destruct Hsm as [_ Hsm].
+  apply andb_true_iff in Hv as [Hv V7]. apply andb_true_iff in Hv as [Hv V6].
+  apply andb_true_iff in Hv as [Hv V5]. apply andb_true_iff in Hv as [Hv V4].
+  apply andb_true_iff in Hv as [Hv V3]. apply andb_true_iff in Hv as [V1 V2].
+  apply Nat.eqb_eq in V1. apply negb_true_iff in V3.
+  apply negb_true_iff, Z.eqb_neq in V5. apply negb_true_iff, Z.eqb_neq in V6.
+  apply negb_true_iff, Nat.eqb_neq in V7.
+  exists rb, sm. split; [exact Erb|]. split; [exact Esm|]. split; [assumption|].
+  split; [intros ->; now apply V7|].
+  split.
+  { intros id Rj Hin. rewrite forallb_forall in V2. specialize (V2 (id, Rj) Hin). cbn [fst snd] in V2.
+    apply andb_true_iff in V2 as [A B]. apply negb_true_iff in A.
+    rewrite Forall_forall in Hrb. split; [apply not_identity_valid; [exact (Hrb (id, Rj) Hin) | assumption]|].
+    destruct (find_share id sm) as [Sj|] eqn:Ef; [|discriminate]. apply negb_true_iff in B.
+    exists Sj. split; [reflexivity|]. apply not_identity_valid; [eapply find_share_wf; eauto | assumption]. }
+  split; [now apply not_identity_valid|].
+  destruct (ps_id p) as [b|]; [|discriminate]. apply andb_true_iff in V4 as [L Z]. apply Nat.eqb_eq in L.
+  apply negb_true_iff in Z.
+  split; [exists b; auto|]. split; [exists b; auto|]. lia.
+Qed.
+
+Theorem presig_unmarshal_total bs : presig_unmarshal bs <> Panic.
+Proof. unfold presig_unmarshal. destruct (decode bs) as [[t r]|]; [apply validated_total | discriminate]. Qed.
 
 (* CBOR null in a field whose Go type is the interface curve.Scalar / curve.Point: fxamacker panics *)
 Theorem null_interface_field_panics :
